@@ -11,7 +11,7 @@
    decidable condition on the abstract state): C23_redis_refines_spec_partial,
    C23_equiv, C23_redis_failed_create_noop_partial. *)
 From Verif Require Import Store.KVPrims Store.Ops Store.Spec Store.EtcdModel Store.RedisModel Store.Case
-  Store.EtcdProofs Store.RedisProofs Store.C23Proofs.
+  Store.EtcdProofs Store.RedisProofs Store.C23Proofs Store.KeyStrings.
 
 Theorem C23_etcd_refines_spec : etcd_refines_spec_stmt.
 Proof. exact etcd_refines_spec_holds. Qed.
@@ -48,3 +48,14 @@ Print Assumptions C23_equiv.
 Theorem C23_redis_failed_create_noop_partial : redis_failed_create_noop_partial_stmt.
 Proof. exact redis_failed_create_noop_partial_holds. Qed.
 Print Assumptions C23_redis_failed_create_noop_partial.
+
+(* the string level of the shared key layout: for names without '/' and ':' the
+   key formats are injective and every prefix read / "prefix*" pattern selects
+   exactly the structural matches the models use *)
+Theorem C23_key_strings_injective : render_injective_stmt.
+Proof. exact render_injective. Qed.
+Print Assumptions C23_key_strings_injective.
+
+Theorem C23_prefix_scans_exact : scans_exact_stmt.
+Proof. exact scans_exact_holds. Qed.
+Print Assumptions C23_prefix_scans_exact.
